@@ -14,6 +14,7 @@ type Spec struct {
 	MustRun   []string    // callback ids that must run exactly once (no Shutdown scenarios, or submitted & accepted before Shutdown was called)
 	NoHandler []string    // With ids that must return an error and never run
 	Closes    int         // expected Conn.Close calls (-1: do not check)
+	Query     *QSpec      // query-event scenarios (C15 oracle)
 	Epochs    int
 }
 
@@ -184,6 +185,9 @@ func Judge(sp *Spec, r *vsched.Result) []string {
 	}
 	for _, p := range r.Panics {
 		add("C03", "thread panicked: %s", firstLines(p, 6))
+	}
+	if sp.Query != nil {
+		out = append(out, JudgeQuery(sp.Query, r)...)
 	}
 	return out
 }
